@@ -50,6 +50,7 @@ This module also holds the driver shared with C13 (RexDriver).
 import contextlib
 import io
 import os
+import unicodedata
 
 from mc.engine import Check, Res, Diverged, explore_choices
 from mc import rex_alphabet as A
@@ -69,15 +70,18 @@ def char_class(c):
         return 'A'
     if '0' <= c <= '9':
         return '9'
+    cat = unicodedata.category(c)
     if c.isspace():
-        return 's'
+        # the separators U+001C..1F and the non-ASCII spaces are named by
+        # category (re and the regex module disagree on some of them)
+        return 's' if c in ' \t\n\r\x0b\x0c' else 's:' + cat
     if ord(c) < 128:
         return c if c.isprintable() else 'c'
     if c.isdigit():
-        return 'n'
+        return 'n' if cat == 'Nd' else 'n:' + cat
     if c.isalnum():
-        return 'u'
-    return 'o'
+        return 'u' if cat in ('Ll', 'Lu', 'Lo') else 'u:' + cat
+    return 'o:' + cat
 
 
 def classes_of(s):
@@ -193,6 +197,7 @@ class RexDriver(Check):
               'make the fragment class change between passes (a-f / non-hex '
               'letters / digits / upper / non-ASCII digit / trailing newline '
               '/ extra letters) x 8 Size settings, every sample answer')]
+        L += self.round3_layers()
         if tier == 'thorough':
             L += [('t-n1-wide', 'singles over Sigma_t (L<=2) and Sigma_q '
                    '(L=3) x full lattice [hash seed 0 only]'),
@@ -212,6 +217,31 @@ class RexDriver(Check):
                   ('t-n2-wide', 'all pairs of the 703 strings over Sigma_t '
                    '(L<=2) x options within 1 deviation [hash seed 0 only]')]
         return L
+
+    def round3_layers(self):
+        return [
+            ('uclasses', 'one representative of every Unicode general '
+             'category (and of every class on which re / regex / str methods '
+             'disagree): alone, doubled, in a variable fragment, and every '
+             'pair of representatives at the same position x 12 option '
+             'points; dict and pandas forms at the default'),
+            ('meta-roles', 'every regex metacharacter in every syntactic '
+             'role (quantifier braces, group openers, bracket expressions, '
+             'escapes, anchors, alternation, repetition): alone and with '
+             'same-shape partners varying letters / digits / prefix / suffix '
+             'x 12 option points x full_escape off/on'),
+            ('zero-counts', 'frequency dictionaries with zero-count entries '
+             '({s:0}, {s:0,t:0}, every ordered pair with one zero) as dict '
+             '(options within 1 deviation), Counter and OrderedDict'),
+            ('sampled-counts', 'E2: frequency dictionaries with counts over '
+             '{1,2,3} on the sampled path: all 27 count vectors for triples '
+             'of a 6-string pool, uniform and cyclic vectors for its sets of '
+             '4-5 x 8 Size settings, every sample answer; dict / Counter / '
+             'OrderedDict'),
+            ('real-random', 'the REAL random module (no seam): sets of 4-5 '
+             'from the 8-string pool x 8 Size settings x seeds {0, 1, None} '
+             'x two global generator pre-states; list and dict forms'),
+        ]
 
     def pool_q(self):
         return A.strings_upto(A.SIGMA_Q, 2)
@@ -266,6 +296,10 @@ class RexDriver(Check):
         elif layer == 'history':
             for c in self.history_cases():
                 yield c
+        elif layer in ('uclasses', 'meta-roles', 'zero-counts',
+                       'sampled-counts', 'real-random'):
+            for c in self.round3_cases(layer):
+                yield c
         elif layer == 't-n1-wide':
             seen = set(self.pool_q())
             for s in (A.strings_upto(A.SIGMA_T, 2)
@@ -302,6 +336,67 @@ class RexDriver(Check):
                 yield {'ex': xs, 'pts': 'dev1', 'forms': 'list'}
         else:
             raise ValueError(layer)
+
+    def round3_cases(self, layer):
+        """Layers shared by C03 and C13 (third strengthening round)."""
+        if layer == 'uclasses':
+            for xs in A.uclass_sets():
+                yield {'ex': xs, 'pts': 'family', 'forms': 'lite'}
+        elif layer == 'meta-roles':
+            for xs in A.meta_role_sets():
+                yield {'ex': xs, 'pts': 'meta', 'forms': 'list'}
+        elif layer == 'zero-counts':
+            singles = []
+            for s in self.pool_q() + A.STRUCTURED:
+                if s not in singles:
+                    singles.append(s)
+            for d in A.zero_count_dicts(singles, A.sub_alphabet(12)):
+                yield {'ex': d, 'pts': 'dev1', 'forms': 'dicts'}
+        elif layer == 'sampled-counts':
+            for c in self.sampled_count_cases():
+                yield c
+        elif layer == 'real-random':
+            for c in self.real_random_cases():
+                yield c
+        else:
+            raise ValueError(layer)
+
+    def sampled_count_cases(self, prune=None):
+        """(set, count vector, mapping form, Size).  The mapping form is
+        orthogonal to the counts: Counter / OrderedDict run with the cyclic
+        vector only."""
+        def emit(xs, counts, form, st):
+            c = {'ex': xs, 'counts': counts, 'size': st, 'seed': None,
+                 'form': form, 'order': 'canonical'}
+            if prune is not None:
+                c['prune'] = prune
+            return c
+        settings = A.SIZE_SETTINGS('quick')
+        for xs in A.example_sets(A.sub_alphabet(6), 3):
+            for counts in A.count_vectors(3, full=True):
+                for st in settings:
+                    yield emit(xs, counts, 'dict', st)
+        for n in (4, 5):
+            for xs in A.example_sets(A.sub_alphabet(6), n):
+                vecs = A.count_vectors(n)
+                for counts in vecs:
+                    for st in settings:
+                        yield emit(xs, counts, 'dict', st)
+                        if counts == vecs[3] and n == 4:
+                            yield emit(xs, counts, 'counter', st)
+                            yield emit(xs, counts, 'odict', st)
+
+    def real_random_cases(self):
+        for n in (4, 5):
+            for xs in A.example_sets(A.SAMPLED_POOL_Q, n):
+                for st in A.SIZE_SETTINGS('quick'):
+                    for seed in A.REAL_SEEDS:
+                        for pre in A.REAL_PRESTATES:
+                            yield {'ex': xs, 'size': st, 'seed': seed,
+                                   'real': pre, 'form': 'list'}
+                    yield {'ex': xs, 'counts': A.count_vectors(n)[3],
+                           'size': st, 'seed': 0,
+                           'real': A.REAL_PRESTATES[0], 'form': 'dict'}
 
     def history_cases(self):
         pts = A.HISTORY_OPTION_POINTS
@@ -363,6 +458,8 @@ class RexDriver(Check):
             opts = [o for o in full if A.n_deviations(o, ax) > 2]
         elif name == 'family':
             opts = [dict(o) for o in A.FAMILY_OPTION_POINTS]
+        elif name == 'meta':
+            opts = [dict(o) for o in A.META_OPTION_POINTS]
         elif name == 'wide':
             opts = [dict(A.DEFAULT_OPTIONS, **d) for d in
                     ({}, {'tag': True}, {'dialect': 'perl'},
@@ -384,6 +481,13 @@ class RexDriver(Check):
         if key in cache:
             return cache[key]
         ax = self.axes()
+        if forms == 'dicts':
+            # the examples ARE a mapping: dict at every point, the other
+            # mapping forms at the default
+            out = [('dict', o) for o in self.points(pts)]
+            out += [(f, dict(A.DEFAULT_OPTIONS)) for f in A.DICT_FORMS[1:]]
+            cache[key] = out
+            return out
         out = [('list', o) for o in self.points(pts)]
         if forms == 'all':
             bound = (99 if pts == 'full' else
@@ -392,6 +496,7 @@ class RexDriver(Check):
                                                      else pts)
                     if A.n_deviations(o, ax) + 1 <= bound]
             if bound >= 1:
+                out += [(f, dict(A.DEFAULT_OPTIONS)) for f in A.DICT_FORMS[1:]]
                 out += [('pd:%s' % k, dict(A.DEFAULT_OPTIONS))
                         for k in A.PANDAS_KINDS]
         elif forms == 'lite':
@@ -416,9 +521,9 @@ class RexDriver(Check):
     def build(self, examples, form):
         if form == 'list':
             return A.as_list(examples)
-        if form == 'dict':
-            return (dict(examples) if isinstance(examples, dict)
-                    else dict(A.as_dict(examples)))
+        if form in A.DICT_FORMS:
+            return A.as_mapping(examples if isinstance(examples, dict)
+                                else A.as_dict(examples), form)
         if form.startswith('pd:'):
             return A.as_series(examples, form[3:])
         raise ValueError(form)
@@ -427,19 +532,21 @@ class RexDriver(Check):
         """What the oracle treats as the supplied examples."""
         if isinstance(examples, dict):
             return dict(examples)
-        if form == 'dict':
+        if form in A.DICT_FORMS:
             return dict(A.as_dict(examples))
         return list(examples)
 
     def call(self, examples, form, opts, size=None, seed=None, fake=None,
-             as_object=False):
+             as_object=False, real=False):
         """One execution of the real code.  Returns (rexes, extractor|None,
-        exception|None)."""
+        exception|None).  `real`: leave the real random module in place (the
+        caller owns the global generator state, see S.real_random)."""
         data = self.build(examples, form)
         fake = fake or S.FakeRandom(None)
         x = None
         try:
-            with S.patched_random(fake):
+            with (contextlib.nullcontext() if real
+                  else S.patched_random(fake)):
                 if form.startswith('pd:'):
                     rex = self.pkg.pdextract(data)
                 else:
@@ -464,7 +571,9 @@ class RexDriver(Check):
         self.fresh_state()
         buf = io.StringIO()
         with contextlib.redirect_stdout(buf), contextlib.redirect_stderr(buf):
-            if 'size' in case:
+            if 'real' in case:
+                self.run_real(R, case)
+            elif 'size' in case:
                 self.run_sampled(R, case)
             elif 'menu' in case:
                 self.run_history(R, case)
@@ -475,6 +584,13 @@ class RexDriver(Check):
     def fresh_state(self):
         self.state.restore()
         S.reset_rexpy_state()
+
+    def case_examples(self, case):
+        """The examples of a sampled / real-random case: the list, or the
+        ordered frequency mapping when the case carries a count vector."""
+        if case.get('counts'):
+            return A.with_counts(case['ex'], case['counts'])
+        return case['ex']
 
     def history_sequences(self, case):
         """Op sequences of a history case: op = (set index, option index)."""
@@ -585,9 +701,11 @@ class RexDriver(Check):
         'q' each character that is not needed.  Names what remains."""
         ax = dict(A.OPTION_AXES)
         ax.update(A.PRUNE_AXES)
+        ax.update(A.EXTRA_AXES)
         cur = dict(opts)
         need = {}
-        for k in list(A.OPTION_AXES) + list(A.PRUNE_AXES):
+        for k in list(A.OPTION_AXES) + list(A.PRUNE_AXES) + \
+                list(A.EXTRA_AXES):
             if k in cur and cur[k] != ax[k][0]:
                 trial = dict(cur)
                 trial[k] = ax[k][0]
@@ -766,7 +884,7 @@ class C03(RexDriver):
 
     # ----------------------------------------------------------- E2
     def run_sampled(self, R, case):
-        ex, size, seed = case['ex'], case['size'], case['seed']
+        ex, size, seed = self.case_examples(case), case['size'], case['seed']
         form, order = case['form'], case['order']
         opts = dict(A.DEFAULT_OPTIONS)
         opts.update(case.get('opts') or {})
@@ -837,6 +955,51 @@ class C03(RexDriver):
                     'final_working_set': working}, sub)
         R.states = nexec
 
+
+    # ------------------------------------------------- real random module
+    def run_real(self, R, case):
+        """The sampled path on the REAL random module (seeds matter here):
+        one extract() from a fixed global generator pre-state."""
+        ex, size, seed = self.case_examples(case), case['size'], case['seed']
+        form = case['form']
+        opts = dict(A.DEFAULT_OPTIONS)
+        supplied = self.supplied(ex, form)
+        kept = M.kept_examples(supplied)
+        R.nontrivial = bool(kept)
+        with S.real_random(case['real']):
+            before = S.real_state_token()
+            rex, x, exc = self.call(ex, form, opts, size=size, seed=seed,
+                                    as_object=True, real=True)
+            moved = S.real_state_token() != before
+        R.ev()
+        detail = {'examples': supplied, 'form': form, 'size': size,
+                  'seed': seed, 'global_prestate': case['real']}
+        if exc is not None:
+            R.out('real-raises:%s' % type(exc).__name__)
+            R.viol('real-random-raises:%s' % type(exc).__name__,
+                   'extract-returns',
+                   dict(detail, exception=repr(exc)[:300]))
+            return
+        um = M.unmatched(rex, supplied)
+        R.out('%sreal%s:%d/%d' % ('V' if um else '', '-moved' if moved else '',
+                                  len(rex), len(kept)))
+        if not um:
+            return
+        r0, e0, u0 = self.failing(ex, form, opts)
+        R.ev(1, checked=0)
+        if e0 is not None or u0:
+            def fails(s2, o2):
+                r2, e2, u2 = self.failing(s2, form, o2)
+                R.ev(1, checked=0)
+                return e2 is not None or bool(u2)
+            sig = self.diagnose(supplied, opts, fails, um)
+            if sig.startswith('opts='):
+                sig = 'unmatched:' + sig
+        else:
+            sig = 'real-random-sampled:unmatched:seed=%s:form=%s' % (
+                'int' if seed is not None else 'None', form)
+        R.viol(sig, 'every-kept-example-matched',
+               dict(detail, returned=rex, unmatched=um))
 
     def sampled_recheck_cause(self, rex, um, working):
         """Why did the loop's own re-check accept an example that the
